@@ -95,7 +95,7 @@ Theorem C07_source_facts :
   srv_malformed_resets = true /\ srv_malformed_stops = true /\
   srv_toobig_status = STATUS_HEADER_FIELDS_TOO_LARGE /\ srv_toobig_stores = false /\
   cli_malformed_code = RFC_H3_MESSAGE_ERROR /\ cli_malformed_stores = false /\ cli_toobig_stores = false /\
-  cli_malformed_stop = Some RFC_H3_REQUEST_CANCELLED /\ cli_toobig_stop = Some RFC_H3_REQUEST_CANCELLED /\
+  cli_malformed_stop = Some RFC_H3_MESSAGE_ERROR /\ cli_toobig_stop = Some RFC_H3_REQUEST_CANCELLED /\
   fse_quic_via_hq = true /\ recv_err_via_fse = true /\ send_data_err_via_hq = true /\ finish_err_via_hq = true /\
   hq_unknown_stores = false /\ srv_toobig_sends_response = true /\
   srv_toobig_variant = VHeaderTooBig /\ cli_toobig_variant = VHeaderTooBig /\
